@@ -210,6 +210,9 @@ func genCfg(r *R) Cfg {
 		}
 	} else {
 		n := r.Range(1, 5)
+		if r.P(0.12) {
+			n = r.Range(6, 18) // long lists (size-dependent code paths)
+		}
 		for i := 0; i < n; i++ {
 			p, insecure, psl := genPattern(r)
 			if insecure && restricted {
@@ -241,7 +244,7 @@ func genCfg(r *R) Cfg {
 			c.Methods = shuffled(r, append(c.Methods, pick(r, vocabMethods)))
 		}
 	default:
-		c.Methods = subset(r, vocabMethods, 0.3)
+		c.Methods = subset(r, vocabMethods, pick(r, []float64{0.3, 0.3, 0.3, 0.9}))
 		for r.P(0.2) {
 			c.Methods = append(c.Methods, randToken(r, pick(r, []string{"M", "m", "X", "q"}), 9))
 		}
@@ -258,8 +261,8 @@ func genCfg(r *R) Cfg {
 			c.RequestHeaders = shuffled(r, append(c.RequestHeaders, pick(r, vocabReqHdrs)))
 		}
 	default:
-		c.RequestHeaders = subset(r, vocabReqHdrs, 0.3)
-		for r.P(0.25) {
+		c.RequestHeaders = subset(r, vocabReqHdrs, pick(r, []float64{0.3, 0.3, 0.3, 0.9}))
+		for r.P(pick(r, []float64{0.25, 0.25, 0.8})) {
 			c.RequestHeaders = append(c.RequestHeaders, randToken(r, pick(r, []string{"X-", "x-", "My", "z"}), pick(r, []int{1, 4, 12, 30, 60})))
 		}
 		c.RequestHeaders = shuffled(r, c.RequestHeaders)
@@ -272,8 +275,8 @@ func genCfg(r *R) Cfg {
 			c.ResponseHeaders = shuffled(r, append(c.ResponseHeaders, pick(r, vocabResHdrs)))
 		}
 	default:
-		c.ResponseHeaders = subset(r, vocabResHdrs, 0.35)
-		for r.P(0.2) {
+		c.ResponseHeaders = subset(r, vocabResHdrs, pick(r, []float64{0.35, 0.35, 0.9}))
+		for r.P(pick(r, []float64{0.2, 0.2, 0.8})) {
 			c.ResponseHeaders = append(c.ResponseHeaders, randToken(r, pick(r, []string{"X-", "x-"}), 20))
 		}
 		c.ResponseHeaders = shuffled(r, c.ResponseHeaders)
